@@ -155,8 +155,22 @@ def match_regex(contract: Teal, regex: Regex) -> Tuple[List[List[Instruction]], 
 
     matches: List[List[Instruction]] = []
     covered: Set[Instruction] = set()
+    visited: Set[Instruction] = set()
 
-    _find_instructions(label, regex.instructions, set(), matches, covered)
+    _find_instructions(label, regex.instructions, visited, matches, covered)
+
+    # The traversal stops at instructions it has already seen: an instruction that reaches a match only through
+    # such an instruction (a join or a loop) is not marked yet. Propagate until nothing changes.
+    match_starts = set(match[0] for match in matches)
+    updated = True
+    while updated:
+        updated = False
+        for ins in visited:
+            if ins not in covered and any(
+                next_ins in covered or next_ins in match_starts for next_ins in ins.next
+            ):
+                covered.add(ins)
+                updated = True
 
     return matches, covered
 
